@@ -26,20 +26,27 @@ Proof.
   destruct (locate r (md d)) as [[v i]|]; reflexivity.
 Qed.
 
-(* a referenced sector reads back the bytes that hash to its root *)
-Lemma referenced_readable d r : dinv d -> refd (md d) r = true -> read_result d r = Some r.
+(* a referenced sector (that was not explicitly deleted) reads back the bytes that hash to its root *)
+Lemma referenced_readableE XE d r : dinvE XE d -> refd (md d) r = true -> ~ XE r -> read_result d r = Some r.
 Proof.
-  intros I H. destruct (d_refs d I r H) as [v [i [S [C D]]]].
+  intros I H HE. destruct (d_refs d I r H HE) as [v [i [S [C D]]]].
   unfold read_result. destruct (cget r (cache d)) as [c|] eqn:Hc.
   - f_equal. apply (d_cache d I r c Hc). exists v, i; auto.
   - unfold locate. rewrite (d_known d I r v i S).
     apply (vfind_iff (md d) r v i (d_inv d I)) in S. rewrite S. now rewrite C.
 Qed.
 
+Lemma referenced_readable d r : dinv d -> refd (md d) r = true -> read_result d r = Some r.
+Proof. intros I H. apply (referenced_readableE _ d r I H). tauto. Qed.
+
 (* ... and still does if the process dies right now *)
+Lemma referenced_readable_after_crashE XE d r :
+  dinvE XE d -> refd (md d) r = true -> ~ XE r -> read_result (dcrash d) r = Some r.
+Proof. intros I H HE. apply (referenced_readableE XE); [now apply dinv_crash|exact H|exact HE]. Qed.
+
 Lemma referenced_readable_after_crash d r :
   dinv d -> refd (md d) r = true -> read_result (dcrash d) r = Some r.
-Proof. intros I H. apply referenced_readable; [now apply dinv_crash|exact H]. Qed.
+Proof. intros I H. apply (referenced_readable_after_crashE _ d r I H). tauto. Qed.
 
 Theorem readable_runs size l r :
   steps_ok (dinit size) l ->
@@ -47,7 +54,7 @@ Theorem readable_runs size l r :
   read_result (druns (dinit size) l) r = Some r /\
   read_result (dcrash (druns (dinit size) l)) r = Some r.
 Proof.
-  intros OK H. pose proof (dinv_runs l (dinit size) (dinv_init size) OK) as I.
+  intros OK H. pose proof (dinv_runs (fun _ => False) l (dinit size) (dinv_init _ size) OK) as I.
   split; [now apply referenced_readable|now apply referenced_readable_after_crash].
 Qed.
 
